@@ -1,12 +1,14 @@
 (* C12 - property theorems about the model of region/helpers.py:write_to_genbank. *)
 From ASV.C12 Require Import Model Proofs.
 From ASV.C04 Require Import Proofs.
+From Coq Require Import Sorting.Permutation.
 
 (* the extract's sequence is the region's: base i of the file is base (start + i) mod N of the record
-   (seq[start:end], or seq[start:] ++ seq[:end] for an origin-crossing region) - for every sequence,
-   every feature list and every region with start <> end *)
+   (seq[start:end], or seq[start:] ++ seq[:end] for an origin-crossing region, which includes the
+   region covering the whole ring from an offset, start = end: repaired finding whole_ring_region) -
+   for every sequence, every feature list and every region *)
 Theorem C12_sequence : forall r sq feats o,
-  wf_region r (zlen sq) -> rstart r <> rend r ->
+  wf_region r (zlen sq) ->
   write_to_genbank r sq feats = Ok o ->
   o_seq o = expected_seq r sq /\
   length (o_seq o) = Z.to_nat (out_len r (zlen sq)) /\
@@ -15,13 +17,14 @@ Theorem C12_sequence : forall r sq feats o,
 Proof. exact sequence_full. Qed.
 Print Assumptions C12_sequence.
 
-(* start = end (a region covering the whole ring from a start other than 0) is not treated as
-   origin-crossing: the extract is empty (finding whole_ring_region, still recorded) *)
-Theorem C12_sequence_whole_ring_refuted : exists r sq feats o,
-  wf_region r (zlen sq) /\ rstart r = rend r /\ write_to_genbank r sq feats = Ok o /\
-  o_seq o = [] /\ o_feats o = [] /\ length (expected_seq r sq) = 10%nat.
-Proof. exact sequence_whole_ring_refuted. Qed.
-Print Assumptions C12_sequence_whole_ring_refuted.
+(* a location covering the whole ring (the whole-ring region itself, its candidate cluster, a
+   protocluster or core with a whole-ring extent) is written as [0, N) with the location's strand; every
+   other location goes through offset_location, as before the repair of whole_ring_region *)
+Theorem C12_whole_ring_location : forall l start N,
+  (0 <= N -> llen l = N -> linearise_loc l start N = Ok [mkPart 0 N (lstrand l)]) /\
+  (llen l <> N -> linearise_loc l start N = offset_location l (- start) (Some N)).
+Proof. intros l start N. split; [apply linearise_whole|apply linearise_plain]. Qed.
+Print Assumptions C12_whole_ring_location.
 
 (* a region that does not cross the origin keeps exactly the features lying completely inside it, in
    the record's order, with the same type and identity; each covers the images of the same bases
@@ -54,55 +57,70 @@ Print Assumptions C12_shift_same_bases_crossing.
    origin-crossing features (reverse strand, more exons) are covered by C04_offset_simple_ring for single
    parts and by the correspondence run *)
 Theorem C12_cross_feature_forward_partial : forall N a b start st,
+  st <> -1 ->
   0 <= b -> b < start -> start <= a -> a < N -> 0 < b -> b + (N - a) < N ->
   offset_location [mkPart a N st; mkPart 0 b st] (- start) (Some N)
   = Ok [mkPart (a - start) (N - start + b) st].
 Proof. exact offset_cross_forward. Qed.
 Print Assumptions C12_cross_feature_forward_partial.
 
+(* the reverse-strand counterpart, exons in transcription order [0,b) then [a,N) (since the repair of finding
+   C04-K3 offset_location joins consecutive reverse-strand parts downwards; before, this feature stayed in two
+   parts, and the listed order [a,N),[0,b) - not a transcription order on the reverse strand - was joined) *)
+Theorem C12_cross_feature_reverse_partial : forall N a b start,
+  0 <= b -> b < start -> start <= a -> a < N -> 0 < b -> b + (N - a) < N ->
+  offset_location [mkPart 0 b (-1); mkPart a N (-1)] (- start) (Some N)
+  = Ok [mkPart (a - start) (N - start + b) (-1)].
+Proof. exact offset_cross_reverse. Qed.
+Print Assumptions C12_cross_feature_reverse_partial.
+
 (* ... and that part lies inside the extract when the region contains the feature (b <= end) *)
 Theorem C12_cross_feature_forward_inside : forall r N a b st,
   wf_region r N -> crosses r = true -> in_wrapped_region r [mkPart a N st; mkPart 0 b st] = true ->
-  0 < b -> a < N -> rstart r <= a ->
+  0 < b -> a < N -> 0 < rstart r <= a ->
   0 <= a - rstart r /\ N - rstart r + b <= out_len r N.
 Proof. exact offset_cross_forward_inside. Qed.
 Print Assumptions C12_cross_feature_forward_inside.
 
-(* renumbering n -> n - min + 1: the smallest number becomes 1, the map is injective and order
-   preserving, and numbers that are contiguous (all below min + k) land in 1..k - for every non-empty
-   list of numbers *)
-Theorem C12_renumber : forall l, l <> [] ->
-  let first := lmin l in
-  (forall n, In n l -> 1 <= renum first n) /\ In 1 (map (renum first) l) /\
-  (forall n m, renum first n = renum first m -> n = m) /\
-  (forall n m, n < m -> renum first n < renum first m) /\
-  (forall k, (forall n, In n l -> n < first + k) -> forall n, In n (map (renum first) l) -> 1 <= n <= k).
-Proof. exact renum_props. Qed.
+(* renumbering by rank (repaired finding wrapped_region_numbering): the old numbers of the map are the
+   numbers of the features of that type in the extract, the new numbers are exactly 1, 2, ..., k in that
+   order (no gaps, whatever the old numbers were), each used once - for every feature list *)
+Theorem C12_renumber : forall crossing t fs m, renumbering crossing t fs = Ok m ->
+  Permutation (map fst m) (nums_of t fs) /\ map snd m = zrange1 (length (nums_of t fs)) /\
+  NoDup (map snd m).
+Proof. exact renumbering_spec. Qed.
 Print Assumptions C12_renumber.
 
-(* the offsets used are the minima over the region's candidate clusters, protoclusters, sub-regions *)
-Theorem C12_renumber_offsets : forall r N c, make_ctx r N = Ok c ->
-  c_first_sub c = (match rsubs r with [] => 0 | _ => lmin (rsubs r) end) /\
-  (rcands r <> [] -> c_first_cc c = lmin (map fst (rcands r)) /\
-                     c_first_cluster c = lmin (map fst (all_protos r)) /\ all_protos r <> []) /\
-  c_protos c = all_protos r /\ c_start c = rstart r /\ c_len c = N.
-Proof. exact make_ctx_firsts. Qed.
-Print Assumptions C12_renumber_offsets.
+(* two different old numbers never get the same new number *)
+Theorem C12_renumber_injective : forall m n n' i, NoDup (map snd m) ->
+  new_number m n = Ok i -> new_number m n' = Ok i -> n = n'.
+Proof. exact new_number_inj. Qed.
+Print Assumptions C12_renumber_injective.
+
+(* the three maps used are the renumberings of the extract's candidate cluster, protocluster and
+   sub-region features (fs = the features of the extract), and they are injective *)
+Theorem C12_renumber_context : forall r N fs c, make_ctx r N fs = Ok c ->
+  (renumbering (crosses r) T_cand fs = Ok (c_cc c) /\
+   renumbering (crosses r) T_proto fs = Ok (c_pc c) /\
+   renumbering (crosses r) T_sub fs = Ok (c_sub c) /\
+   c_protos c = all_protos r /\ c_start c = rstart r /\ c_len c = N) /\ ctx_ok c.
+Proof. intros r N fs c H. split; [exact (make_ctx_spec r N fs c H)|exact (make_ctx_ok r N fs c H)]. Qed.
+Print Assumptions C12_renumber_context.
 
 (* what is rewritten per feature type: region: candidate_cluster_numbers and subregion_numbers;
    cand_cluster: its number and its protocluster list; protocluster / proto_core: the number (which
-   must be a protocluster of the region); subregion: its number; type, identity and location of a
-   feature are never touched by the renumbering *)
+   must be a protocluster of the region); subregion: its number - all through the maps; type, identity
+   and location of a feature are never touched by the renumbering *)
 Theorem C12_adjust_numbers : forall c f g, adjust_feat c f = Ok g ->
   (floc g = floc f /\ ftype g = ftype f /\ ftag g = ftag f) /\
-  (ftype f = T_region -> fq1 g = map (renum (c_first_cc c)) (fq1 f) /\
-                         fq2 g = map (renum (c_first_sub c)) (fq2 f)) /\
-  (ftype f = T_cand -> exists n q, fq1 f = n :: q /\ fq1 g = [renum (c_first_cc c) n] /\
-                                   fq2 g = map (renum (c_first_cluster c)) (fq2 f)) /\
+  (ftype f = T_region -> mapM (new_number (c_cc c)) (fq1 f) = Ok (fq1 g) /\
+                         mapM (new_number (c_sub c)) (fq2 f) = Ok (fq2 g)) /\
+  (ftype f = T_cand -> exists n q i, fq1 f = n :: q /\ new_number (c_cc c) n = Ok i /\ fq1 g = [i] /\
+                                     mapM (new_number (c_pc c)) (fq2 f) = Ok (fq2 g)) /\
   (ftype f = T_proto \/ ftype f = T_core ->
-     exists n q, fq1 f = n :: q /\ fq1 g = [renum (c_first_cluster c) n] /\
-                 lookup_last n (c_protos c) None <> None) /\
-  (ftype f = T_sub -> exists n q, fq1 f = n :: q /\ fq1 g = [renum (c_first_sub c) n]).
+     exists n q i, fq1 f = n :: q /\ new_number (c_pc c) n = Ok i /\ fq1 g = [i] /\
+                   lookup_last n (c_protos c) None <> None) /\
+  (ftype f = T_sub -> exists n q i, fq1 f = n :: q /\ new_number (c_sub c) n = Ok i /\ fq1 g = [i]).
 Proof. exact adjust_numbers_full. Qed.
 Print Assumptions C12_adjust_numbers.
 
@@ -110,34 +128,46 @@ Print Assumptions C12_adjust_numbers.
    the candidate's new number; the candidate lists protocluster n iff its rewritten list holds the new
    number of the protocluster / proto_core feature; the region feature lists sub-region n iff its
    rewritten list holds the sub-region's new number (repaired finding subregion_refs_not_renumbered) *)
-Theorem C12_refs_region_candidate : forall c fr fc gr gc n q,
+Theorem C12_refs_region_candidate : forall c fr fc gr gc n q, ctx_ok c ->
   ftype fr = T_region -> ftype fc = T_cand ->
   adjust_feat c fr = Ok gr -> adjust_feat c fc = Ok gc -> fq1 fc = n :: q ->
-  (In n (fq1 fr) <-> In (renum (c_first_cc c) n) (fq1 gr)) /\ fq1 gc = [renum (c_first_cc c) n].
+  exists i, new_number (c_cc c) n = Ok i /\ fq1 gc = [i] /\ (In n (fq1 fr) <-> In i (fq1 gr)).
 Proof. exact refs_region_cand. Qed.
 Print Assumptions C12_refs_region_candidate.
 
-Theorem C12_refs_candidate_protocluster : forall c fc fp gc gp n q,
+Theorem C12_refs_candidate_protocluster : forall c fc fp gc gp n q, ctx_ok c ->
   ftype fc = T_cand -> (ftype fp = T_proto \/ ftype fp = T_core) ->
   adjust_feat c fc = Ok gc -> adjust_feat c fp = Ok gp -> fq1 fp = n :: q ->
-  (In n (fq2 fc) <-> In (renum (c_first_cluster c) n) (fq2 gc)) /\ fq1 gp = [renum (c_first_cluster c) n].
+  exists i, new_number (c_pc c) n = Ok i /\ fq1 gp = [i] /\ (In n (fq2 fc) <-> In i (fq2 gc)).
 Proof. exact refs_cand_proto. Qed.
 Print Assumptions C12_refs_candidate_protocluster.
 
-Theorem C12_refs_region_subregion : forall c fr fs gr gs n q,
+Theorem C12_refs_region_subregion : forall c fr fs gr gs n q, ctx_ok c ->
   ftype fr = T_region -> ftype fs = T_sub ->
   adjust_feat c fr = Ok gr -> adjust_feat c fs = Ok gs -> fq1 fs = n :: q ->
-  (In n (fq2 fr) <-> In (renum (c_first_sub c) n) (fq2 gr)) /\ fq1 gs = [renum (c_first_sub c) n].
+  exists i, new_number (c_sub c) n = Ok i /\ fq1 gs = [i] /\ (In n (fq2 fr) <-> In i (fq2 gr)).
 Proof. exact refs_region_sub. Qed.
 Print Assumptions C12_refs_region_subregion.
 
-(* gaps in the numbers (origin-crossing region whose members sort to both ends of the record's lists)
-   stay: 1, 3 is written as 1, 3 (finding wrapped_region_numbering) *)
-Theorem C12_renumber_gap_refuted : exists r sq feats o,
-  wf_region r (zlen sq) /\ crosses r = true /\ write_to_genbank r sq feats = Ok o /\
-  nums_of T_cand (o_feats o) = [1; 3] /\ numbers_ok (o_feats o) = false.
-Proof. exact renumber_gap_refuted. Qed.
-Print Assumptions C12_renumber_gap_refuted.
+(* the numbers written into the file (replaces C12_renumber_gap_refuted, repaired finding
+   wrapped_region_numbering): for each of the three area types the new numbers of the extract's features
+   are a permutation of 1..k - no gaps, no number twice - and in an origin-crossing region (where the
+   parent's order is not the extract's) they follow the position in the extract: an area that starts
+   earlier, or at the same base and is longer, has the smaller number, which is how a record built from
+   the file numbers it.  For every input on which the call returns and whose extract (fs', before the
+   renumbering) carries distinct numbers per type *)
+Theorem C12_numbers_1_to_k : forall r sq feats s' fs' o t, t = T_cand \/ t = T_proto \/ t = T_sub ->
+  build_base r sq feats = Ok (s', fs') -> write_to_genbank r sq feats = Ok o -> NoDup (nums_of t fs') ->
+  Permutation (nums_of t (o_feats o)) (zrange1 (length (nums_of t fs'))) /\
+  (crosses r = true -> position_order_type t (o_feats o) = true).
+Proof. exact write_numbers_1_to_k. Qed.
+Print Assumptions C12_numbers_1_to_k.
+
+(* ... and when the region does not cross the origin, distinct numbers in the parent are enough *)
+Theorem C12_numbers_linear_extract : forall r sq feats s' fs' t, crosses r = false ->
+  build_base r sq feats = Ok (s', fs') -> NoDup (nums_of t feats) -> NoDup (nums_of t fs').
+Proof. exact linear_extract_nodup. Qed.
+Print Assumptions C12_numbers_linear_extract.
 
 (* leader/tail locations (one part) are moved with the wrap point, like the feature itself (repaired
    finding wrapped_region_motif_offset): a part after the origin of an origin-crossing region goes to
@@ -253,7 +283,7 @@ Proof. eexists. split; [unfold wf_region; cbn; lia|]. split; [reflexivity|]. spl
 Definition ex_cross_feats :=
   [ mkFeat 7 1 [mkPart 1 3 1] [] [] None None;
     mkFeat 7 2 [mkPart 10 12 1; mkPart 0 1 1] [] [] None None;
-    mkFeat T_region 0 [mkPart 9 12 1; mkPart 0 4 1] [1] [] None None;
+    mkFeat T_region 0 [mkPart 9 12 1; mkPart 0 4 1] [] [] None None;
     mkFeat 7 3 [mkPart 9 10 (-1)] [] [] None None;
     mkFeat 7 4 [mkPart 5 7 1] [] [] None None ].
 Definition ex_cross_region := mkR 9 4 [(1, [(1, [mkPart 10 12 1; mkPart 0 1 1])])] [].
@@ -269,7 +299,15 @@ Proof. eexists. split; [unfold wf_region; cbn; lia|]. split; [reflexivity|].
   split; [repeat constructor; unfold wf_part; cbn; try lia; discriminate|].
   split; [vm_compute; reflexivity|]. repeat split; reflexivity. Qed.
 
-Example C12_ex_renumber : lmin [4; 3; 5] = 3 /\ map (renum (lmin [4; 3; 5])) [4; 3; 5] = [2; 1; 3].
+(* sub-regions 4, 7, 5 at [6,9), [0,3), [0,5): without positions (a region that does not cross the origin
+   keeps the parent's order) 4 -> 1, 5 -> 2, 7 -> 3; by position in the extract of an origin-crossing
+   region the longer of the two areas starting at 0 comes first: 5 -> 1, 7 -> 2, 4 -> 3 *)
+Definition ex_subs :=
+  [ mkFeat T_sub 0 [mkPart 6 9 1] [4] [] None None; mkFeat T_sub 0 [mkPart 0 3 1] [7] [] None None;
+    mkFeat T_sub 0 [mkPart 0 5 1] [5] [] None None ].
+Example C12_ex_renumber :
+  renumbering false T_sub ex_subs = Ok [(4, 1); (5, 2); (7, 3)] /\
+  renumbering true T_sub ex_subs = Ok [(5, 1); (7, 2); (4, 3)].
 Proof. split; reflexivity. Qed.
 
 Example C12_ex_cross_forward :
@@ -277,6 +315,26 @@ Example C12_ex_cross_forward :
 Proof. reflexivity. Qed.
 
 (* the witnesses of the repaired findings now satisfy the property *)
+Example C12_ex_whole_ring : exists o,
+  wf_region w_ring_region (zlen w_seq) /\ rstart w_ring_region = rend w_ring_region /\
+  crosses w_ring_region = true /\
+  write_to_genbank w_ring_region w_seq w_ring_feats = Ok o /\
+  o_seq o = [0; 1; 2; 3; 0; 1; 0; 1; 2; 3] /\ o_seq o = expected_seq w_ring_region w_seq /\
+  map ftag (o_feats o) = [1; 0; 2; 3] /\
+  map floc (o_feats o) = [[mkPart 1 4 1]; [mkPart 0 10 1]; [mkPart 5 7 1]; [mkPart 7 9 (-1)]].
+Proof. exact whole_ring_witness. Qed.
+
+Example C12_ex_renumber_gap : exists o,
+  wf_region w_gap_region (zlen w_seq) /\ crosses w_gap_region = true /\
+  write_to_genbank w_gap_region w_seq w_gap_feats = Ok o /\
+  map ftype (o_feats o) = [T_cand; T_proto; T_region; T_cand; T_proto] /\
+  map floc (o_feats o) = [[mkPart 0 1 1]; [mkPart 0 1 1]; [mkPart 0 5 1]; [mkPart 3 4 1]; [mkPart 3 4 1]] /\
+  map fq1 (o_feats o) = [[1]; [1]; [2; 1]; [2]; [2]] /\
+  map fq2 (o_feats o) = [[1]; []; []; [2]; []] /\
+  nums_of T_cand (o_feats o) = [1; 2] /\ nums_of T_proto (o_feats o) = [1; 2] /\
+  numbers_ok (o_feats o) = true /\ position_order w_gap_region (o_feats o) = true.
+Proof. exact renumber_gap_witness. Qed.
+
 Example C12_ex_cross_feature_partial : exists r sq feats o,
   wf_region r (zlen sq) /\ crosses r = true /\ write_to_genbank r sq feats = Ok o /\
   out_len r (zlen sq) = 5 /\ map ftag feats = [1; 2] /\ map ftag (o_feats o) = [2] /\
